@@ -436,6 +436,11 @@ func parseHost(host []byte) ([]byte, error) {
 		if i < 0 {
 			return nil, errors.New("missing ']' in host")
 		}
+		if bytes.IndexByte(host, ']') != i {
+			// The literal ends at the first ']'; a second one is neither
+			// part of the address nor of the port.
+			return nil, fmt.Errorf("invalid host %q", host)
+		}
 		colonPort := host[i+1:]
 		if !validOptionalPort(colonPort) {
 			return nil, fmt.Errorf("invalid port %q after host", colonPort)
@@ -461,7 +466,12 @@ func parseHost(host []byte) ([]byte, error) {
 			if err != nil {
 				return nil, err
 			}
-			return append(host1, append(host2, host3...)...), nil
+			host = append(host1, append(host2, host3...)...)
+			// The address in front of the zone must be an IPv6 address, too.
+			if err = validateIPv6Literal(host); err != nil {
+				return nil, err
+			}
+			return host, nil
 		}
 	} else {
 		if bytes.IndexByte(host, '[') >= 0 || bytes.IndexByte(host, ']') >= 0 {
